@@ -60,24 +60,33 @@ def obs_program(params):
             return (d.get("path", w), bool(d.get("recursive", False)), None if flt is None else frozenset(flt), d.get("spell", "str"),
                     None if flt is None else list(flt))
 
+        def ident(w):       # a bytes path and a str path are two watches (each handler gets its own path type, C19)
+            k = spec_of(w)
+            return k[:3] + (k[3] == "bytes",)
+
         def canon(w):
-            k = spec_of(w)[:3]
-            return min(x for x in set(wspec) | {w} if spec_of(x)[:3] == k)
+            k = ident(w)
+            return min(x for x in set(wspec) | {w} if ident(x) == k)
 
         def wargs(w):
             pth, rec, _fs, spell, flt = spec_of(w)
             path = f"/w{pth}"
-            return (pathlib.Path(path) if spell == "path" else path), rec, (None if flt is None else [getattr(events, n) for n in flt])
+            path = pathlib.Path(path) if spell == "path" else (path.encode() if spell == "bytes" else path)
+            return path, rec, (None if flt is None else [getattr(events, n) for n in flt])
+
+        def follow(w):
+            return bool(wspec.get(w, {}).get("follow_symlink", False))      # not part of a watch's identity
 
         def wid(watch):
             flt = watch.event_filter
-            key = (int(watch.path[2:]), watch.is_recursive, None if flt is None else frozenset(c.__name__ for c in flt))
-            ks = [x for x in set(wspec) if spec_of(x)[:3] == key]
+            key = (int(watch.path[2:]), watch.is_recursive, None if flt is None else frozenset(c.__name__ for c in flt),
+                   isinstance(watch.path, bytes))
+            ks = [x for x in set(wspec) if ident(x) == key]
             return min(ks) if ks else key[0]
 
         def mkwatch(w):
             path, rec, flt = wargs(w)
-            return api.ObservedWatch(path, recursive=rec, event_filter=flt)
+            return api.ObservedWatch(path, recursive=rec, event_filter=flt, follow_symlink=follow(w))
 
         class ScriptedEmitter(api.EventEmitter):
             def __init__(self, event_queue, watch, *, timeout=1.0, event_filter=None):
@@ -174,7 +183,8 @@ def obs_program(params):
             k = op[0]
             if k == "schedule":
                 path, rec, flt = wargs(op[2])
-                call("schedule", lambda: obs.schedule(H(op[1]), path, recursive=rec, event_filter=flt), h=op[1], w=canon(op[2]))
+                call("schedule", lambda: obs.schedule(H(op[1]), path, recursive=rec, event_filter=flt, follow_symlink=follow(op[2])),
+                     h=op[1], w=canon(op[2]))
             elif k == "unschedule":
                 call("unschedule", lambda: obs.unschedule(mkwatch(op[1])), w=canon(op[1]))
             elif k == "add":
